@@ -100,6 +100,12 @@ def pAssign : P Assign
                  | some ks, 'r' => some (EKind.rule :: ks)
                  | some ks, 'o' => some (EKind.other :: ks)
                  | _, _ => none) (some []) |>.map FVal.seq
+             else if fv.startsWith "I" then
+               (fv.drop 1).toString.toList.foldr (fun c acc => match acc, c with
+                 | some ks, 's' => some (EKind.str :: ks)
+                 | some ks, 'r' => some (EKind.rule :: ks)
+                 | some ks, 'o' => some (EKind.other :: ks)
+                 | _, _ => none) (some []) |>.map FVal.iter
              else none)
     let b ← (if d == "T" then some true else if d == "F" then some false else none)
     pure ({ name := name, vid := v, fv := f, isDict := b }, ts)
